@@ -2354,7 +2354,7 @@ class Window(Container):
                 ui_content.cursor_position.y,
                 width,
                 self.get_line_prefix,
-                slice_stop=ui_content.cursor_position.x,
+                slice_stop=ui_content.cursor_position.x + 1,
             )
 
             # Adjust scroll offset.
